@@ -447,6 +447,14 @@ def _hist_oracle(a, ires):
         k = o[0]
         good = _in_range(S)
         body = tm_octets(S) if good else None
+        if k in pc.SERIALISERS and not pc.hdr_range_ok(S):
+            # APID / sequence count / data length were pushed out of range (the setters do not validate): every one of these
+            # routes packs the primary header first and must refuse with ValueError; nothing is encoded and nothing -
+            # not even the cached CRC - changes
+            r = pc.out_of_range_verdict("PusTm", k, where, S, st)
+            if r is not None:
+                return r
+            continue
         if k in (0, 1, 7):
             out = None
             if ok:
@@ -626,6 +634,8 @@ def _rand_ops(rng, tl, n0, maxops=10, wild_p=0.0):
             o = _rand_setter(rng, 8 + tl + cur, wild=rng.random() < wild_p)
             if o[0] == 24: tl = len(o) - 6
             ops.append(o)
+            if o[0] == 30 and o[1] in pc.HDR_LIMIT and not 0 <= o[2] < pc.HDR_LIMIT[o[1]] and rng.random() < 0.6:
+                ops.append(rng.choice([[0, 0], [0, 1], [1, 0], [2, 0], [7, 0], [7, 1], [26, 0], [27, rng.randrange(4)]]))   # ... pushed out of range: a serialiser follows
             if rng.random() < 0.15:
                 ops.append(list(o))
     return ops
@@ -786,6 +796,18 @@ def hardening_streams(tier, rng):
     for path, kind in ([(0, 1), (5, 1)] if not big else [(p_, k_) for p_ in (0, 2, 3, 4, 5) for k_ in (0, 1)]):
         cases.append((620, _hist_params(rng, path=path, kind=kind, n=65520, tl=7)))
     yield "alternate_construction_paths", "exact", cases
+    # E2. a primary-header field pushed out of range through every public route (tm.apid, sp_header.apid,
+    #     space_packet_header.packet_id.apid, the Service17Tm wrapper's header, ... data_len), then every serialisation
+    #     route (must refuse with ValueError, nothing encoded), healed, serialised again
+    cases = []
+    views = ((0, 0), (0, 1), (1, 0), (2, 0), (7, 0), (26, 0), (27, 0), (27, 3))
+    for path in (0, 2, 3, 4, 5):
+        base = _hist_params(rng, path=path, n=rng.randrange(0, 9))
+        heal = lambda f, base=base: 8 + len(base[1]) + len(base[2]) if f == 6 else rng.randrange(pc.HDR_LIMIT[f])
+        hs = pc.out_of_range_histories(rng, HDR_ROUTES, heal, views=views, primes=((), ((0, 0),), ((2, 0),), ((7, 0),)))
+        for ops in (hs if big or path == 0 else rng.sample(hs, len(hs) // 5)):
+            cases.append((620, base + ops))
+    yield "header_out_of_range_then_serialise", "exact", cases
     # F. size sweep of the setters on a live object
     cases = []
     sizes = sorted(set(NEAR_256) | {0, 1, 2, 63, 64, 65, 127, 128, 129, 255, 1100} | ({2048, 4095, 4096, 4097} if big else set()))
